@@ -26,7 +26,11 @@ def _neutral_doc(prop_name: str = "neutral_name", param_name: str = "neutral_par
                     "responses": {"200": jresp(ref("CaptureModel"))},
                 },
                 "get": {"operationId": "captureGet", "parameters": [param("id", "path", STR), param(param_name, "query", INT, True)], "responses": {"204": {"description": "n"}}},
-            }
+            },
+            # the candidate as a *path* parameter next to ordinary query/header parameters (other code runs in between)
+            "/capp/{" + param_name + "}/x": {
+                "put": {"operationId": "capturePath", "parameters": [param(param_name, "path", STR), param("limit", "query", INT), param("cursor", "query", STR), param("X-Plain", "header", STR)], "responses": {"204": {"description": "n"}}},
+            },
         },
     )
 
